@@ -50,7 +50,7 @@ CTOR = {'PosOffset': ('po', ['pos', 'offset'], ['int', 'int'])}
 # python annotation -> model type tag
 ANNOT = {'int': 'int', 'bool': 'bool', 'Strand': 'strand', 'Exon': 'exon', 'UIntRange': 'range', 'IntPatternBuilder': 'pt', 'CdsSeq': 'cds',
          'TargetonConfig': 'tcfg', 'str': 'str', 'str | None': 'ostr', 'VariantType': 'vtype', 'Variant': 'variant', 'VarStats': 'vstat',
-         'SearchType': 'search', 'SearchType | None': 'option:search', 'list[VarStats]': 'list:vstat', 'Iterable[VarStats]': 'list:vstat', 'list[PosOffset]': 'list:po', 'array': 'list:int'}
+         'SearchType': 'search', 'SearchType | None': 'option:search', 'Callable[[int], bool]': 'fn:int->bool', 'list[VarStats]': 'list:vstat', 'Iterable[VarStats]': 'list:vstat', 'list[PosOffset]': 'list:po', 'array': 'list:int'}
 COQ_TYPE = {'int': 'Z', 'bool': 'bool', 'strand': 'strand', 'exon': 'exon', 'range': 'range', 'pt': 'pt', 'cds': 'cds_seq', 'tcfg': 'tcfg', 'unit': 'unit',
             'str': 'string', 'ostr': '(option string)', 'vtype': 'vtype', 'strenum': 'string', 'variant': 'variant', 'vstat': 'vstat', 'po': '(Z * Z)', 'kgpo': 'kgpo', 'search': 'search'}
 
@@ -62,6 +62,8 @@ def coq_type(t: str) -> str:
         return f'(option {coq_type(t[7:])})'
     if t.startswith('tuple:'):
         return '(' + ' * '.join(coq_type(x) for x in t[6:].split(',')) + ')'
+    if t == 'fn:int->bool':
+        return '(Z -> result bool)'
     if t not in COQ_TYPE:
         raise TransError(f'no Coq type for {t}')
     return COQ_TYPE[t]
@@ -359,6 +361,11 @@ class Translator:
                 acc, ty = ATTR[key]
                 return f'({acc} {v})', ty
             prop = self.fns.get(f'{t}.{e.attr}')
+            if prop is not None and [pn for pn, _ in prop.params if pn != 'self']:
+                # not a property: the attribute is a bound method, handed over as a callback
+                if [tp for pn, tp in prop.params if pn != 'self'] != ['int'] or prop.ret != 'bool':
+                    raise TransError(f'bound method {t}.{e.attr} used as a value')
+                return f'({prop.coq_name} {v})', 'fn:int->bool'
             if prop is not None:
                 x = self.tmp()
                 binds.append((x, f'{prop.coq_name} {v}'))
@@ -478,6 +485,12 @@ class Translator:
                     x = self.tmp()
                     binds.append((x, f'mk_range {args[0][0]} {args[1][0]}'))
                     return x, 'range'
+                if f.id in env and env[f.id][1] == 'fn:int->bool':
+                    if [t for _, t in args] != ['int'] or e.keywords:
+                        raise TransError('call of a callback: argument types')
+                    x = self.tmp()
+                    binds.append((x, f'{env[f.id][0]} {args[0][0]}'))
+                    return x, 'bool'
                 if f.id in env and env[f.id][1].startswith('fnval:'):
                     _, _, ptypes, rett = self.fn_tables[env[f.id][1][6:]]
                     if [t for _, t in args] != ptypes or e.keywords:
@@ -492,6 +505,13 @@ class Translator:
                     binds.append((x, (f'{fn.coq_name} ' + ' '.join(a for a, _ in args)).strip()))
                     return x, fn.ret
                 raise TransError(f'call of {f.id}')
+            if isinstance(f, ast.Attribute) and isinstance(f.value, ast.Name) and f.value.id == 'UIntRange' and f.value.id not in env \
+                    and 'range.' + f.attr in self.fns and not self.fns['range.' + f.attr].params[:1] == [('self', 'range')]:
+                fn = self.fns['range.' + f.attr]        # a classmethod of UIntRange called on the class
+                args = self.bind_args(args, e.keywords, fn, list(fn.params), 'range.' + f.attr, env, binds)
+                x = self.tmp()
+                binds.append((x, f'{fn.coq_name} ' + ' '.join(a for a, _ in args)))
+                return x, fn.ret
             if isinstance(f, ast.Attribute):
                 v, t = self.expr(f.value, env, binds)
                 fn = self.fns.get(f'{t}.{f.attr}')
